@@ -35,7 +35,9 @@ MODELLED = [
     "corrections, adjusted XYZ, n-e-u / xyz covariance blocks, statistics, point order - are modelled in "
     "Gama/Model/G3Net.lean and compared in the stream g3-result; B L H of the result go through xyz2blh, C18), the "
     "adjusted-observation part of the result and g3_adjres.cpp are exercised end-to-end only",
-    "the solvers behind class Adj are C01-C04's theorems; here Adj is only run (4 algorithms) on the dumped equations",
+    "the solvers behind class Adj are C01-C04's theorems; round 9 composes them with gama-g3's own input (Gama/Model/G3Dump.lean: "
+    "dumpOf = sparse rows + cluster cofactors through C10's activeCov + minx list; Props/C19Dump.lean: C19_g3_same_adjustment) and "
+    "compares the homogenised system of the real Adj with AdjM.homogenise (dumpOf ...) (stream g3-homogenised)",
     "E_3 / R_3 primitives (e3.cpp), Point::diff_N.., X_dh, model_height, Parameter::index are hand-written Lean "
     "(Gama/Model/{Neu,G3Lin}.lean), pinned by a normalised-text comparison in the translator and by the `lin` stream",
     "angle coefficients: proved to be the derivative of the horizontal angle (difference of the direction angles in the "
